@@ -1,6 +1,7 @@
 import ast
 import functools
 import inspect
+import re
 from collections.abc import Mapping, MutableMapping
 from typing import (
     TYPE_CHECKING,
@@ -139,11 +140,30 @@ def stateful_eval(
     if variables is not None:
         variables.update(get_expression_variables(code, env, aliases))
 
-    # Extract the nodes of the graph that correspond to stateful transforms
+    # Extract the nodes of the graph that correspond to stateful transforms.
+    # State is keyed by the expression of the node with the original (quoted)
+    # names restored: the sanitized aliases are only unique within one
+    # expression, so two factors over differently named columns could
+    # otherwise share (and overwrite) one state entry.
+    restore = {alias: orig for alias, orig in aliases.items() if alias != orig}
+    restore_matcher = (
+        re.compile(
+            r"(?<!\w)(?:"
+            + "|".join(re.escape(a) for a in sorted(restore, key=len, reverse=True))
+            + r")(?!\w)"
+        )
+        if restore
+        else None
+    )
     stateful_nodes: dict[str, ast.Call] = {}
     for node in ast.walk(code):
         if _is_stateful_transform(node, env):
-            stateful_nodes[format_expr(node)] = cast(ast.Call, node)
+            name = format_expr(node)
+            if restore_matcher:
+                name = restore_matcher.sub(
+                    lambda match: f"`{restore[match.group(0)]}`", name
+                )
+            stateful_nodes[name] = cast(ast.Call, node)
 
     # Mutate stateful nodes to pass in state from a shared dictionary.
     for name, node in stateful_nodes.items():
